@@ -169,4 +169,12 @@ Proof.
   - tauto.
 Qed.
 
+Lemma block_uniq k k' t : k * B <= t < k * B + B -> k' * B <= t < k' * B + B -> k = k'.
+Proof. intros H1 H2. destruct (Nat.lt_trichotomy k k') as [L|[E|L]]; auto; exfalso; nia. Qed.
+
+Lemma cntu_all_false f lo n : (forall i, lo <= i < lo + n -> f i = false) -> cntu f lo n = n.
+Proof.
+  revert lo. induction n as [|n IH]; intros lo H; cbn; [reflexivity|]. rewrite (H lo) by lia. rewrite IH; [lia|]. intros i Hi. apply H. lia.
+Qed.
+
 End S.
